@@ -675,7 +675,7 @@ func runFramingCase(raw json.RawMessage, w *TraceWriter) {
 			if err != nil {
 				return
 			}
-			fr = fmt.Sprintf(`{"ok":true,"hlen":%d,"plen":%d,"seq":%d,"method":%s,"schema":%q,"val":%s}`, dp.HeaderLen, dp.PayloadLen, seq,
+			fr = fmt.Sprintf(`{"ok":true,"hlen":%d,"plen":%d,"seq":%d,"method":%s,"schema":%q,"val":%s}`, tlcInt(dp.HeaderLen), tlcInt(dp.PayloadLen), seq,
 				projectBytes([]byte(m), seeds), structs[i].Schema, readValJSON(dst, seeds))
 			rd.Release(nil)
 		}()
